@@ -1,4 +1,5 @@
 import GudhiVerif.History
+import GudhiVerif.ExtDecode
 import GudhiVerif.Order
 import GudhiVerif.Model.SimplexTree
 /-! # C03 — filtration order and filtration-value maintenance
